@@ -26,6 +26,17 @@ CHECKS = {
         technique="TLA+ spec Grading.tla: safety + liveness (WF) by TLC; schedule-forcing replay of spec configurations; "
                   "TLC trace judging of recorded executions",
         ref="DESIGN.md section 4 C02, Appendix A"),
+    "C12": dict(
+        text="Mesh.tla models the life cycle (add/delete/assemble/move/backport/clear/modify_patch/set_default_patch/"
+             "merge_patches/write) and states, for every write, the freshly built model the file must equal; TLC checks the "
+             "design-level action properties and enumerates all histories to a length bound (plus -simulate for longer "
+             "ones); every history is replayed through the real Mesh API and each written file compared (parsed, "
+             "numbering-independent) with the file of the fresh model, entity points with the model's positions.",
+        note="Oracle is relational: the fresh model is written by the same library; faithfulness of a single write is C06. "
+             "Operations are lattice boxes with count chops; calls the statement does not speak about (add/delete/merge "
+             "while assembled) are not generated.",
+        technique="TLA+ spec Mesh.tla: TLC BFS/-simulate generates histories + expected fresh model; replay into the real API",
+        ref="DESIGN.md section 4 C12, Appendix B"),
 }
 
 def main():
